@@ -151,3 +151,10 @@ C04 = codec_check("C04", "C04", "model_checking",
     rule="exhaustive enumeration of hostile inputs, each run through every reading program (19 hand-written Reader programs covering every Read*/Skip/RawBytes/ReadInterface/RawRecord combination + generated unmarshalers): (1) every string of <=L symbols over the ROR2 delimiter alphabet via NewRor2Reader and as a ParseQueryParams value, and whole as a query string; (2) every sequence of <=L JSON tokens; (3) every truncation and every single-byte deletion / substitution / insertion (22 bytes) of the reference encodings of the base and rich value of every wrapper in json/header/query, fed to the schema's own unmarshaler; (4) Go value trees of depth<=2 through NewInterfaceReader; the oracle is: the call returns (no panic; a 90 s no-progress watchdog flags hangs); states = inputs, transitions = decoder runs; failures are identified by the panic site in the library",
     assumptions=["coverage-guided mutation beyond the exhaustive bounds is sampling, a different technique family, and is not done",
                  "HTTP-level robustness (path, query, headers, tunnelled bodies, client-side responses) is the wire-level part of this check"])
+
+C05 = simple_check("C05", "c05", "model_checking",
+    rule="explicit enumeration of (registered resource tree, request) pairs: trees = shapes {collection, collection>collection, simple>collection, two roots, simple, collection>simple} x method sets {none, each single method/finder/action, all, all-but-one}; requests = full product verb x X-RestLi-Method x path shape x q x ids x action x tunnelled x filter stack x mounting; every request is serialised, parsed by net/http's server-side parser and served by the real router with stub resource code; the observed (status, invoked stub, filter/method sequence, routing facts seen by filters) is compared with the decision table of DESIGN.md Appendix A; plus handler snapshots; states = trees, transitions = ServeHTTP calls; a class is the expected outcome kind",
+    assumptions=["two request families are left unspecified by the property and are don't-care: a method header that contradicts the HTTP verb, and a non-GET/POST/PUT/DELETE verb carrying a method header on a simple resource",
+                 "a trailing slash may be answered like the slash-less path or with any 4xx; a method header naming no method may be ignored or answered 4xx",
+                 "paths that net/http's ServeMux itself redirects (//, dot segments) are outside the request alphabet"],
+    trusted=["mc/wire in-memory HTTP exchange (net/http request/response serialisation and parsing)", "refrouter decision table in harness/c05"])
